@@ -8,7 +8,7 @@ from ..callgraph import Resolver, own_nodes
 from ..flow import origin, returns_of
 from ..guard import closed_world
 from ..model import PKG, FuncInfo, Program, construct_key, dotted, norm, parent
-from ..ord import E, L, OrdUnknown, Scalar, Tup, evaluate
+from ..ord import E, L, OrdDeviation, OrdUnknown, Scalar, Tup, evaluate
 from ..report import Finding, Result
 from ..sgn import MAX, MIN
 
@@ -91,6 +91,11 @@ def run(prog: Program, res: Result) -> None:
             n_eval += 1
             try:
                 got, ev = evaluate(prog, name, direction)
+            except OrdDeviation as exc:
+                res.ob(False)
+                res.add(Finding(P, "C16.R1-helper-spec", f"helpers.{name}::{direction}", fi.loc(),
+                                f"helpers.{name} under direction {direction} does not rank by cost: {exc}"))
+                continue
             except OrdUnknown as exc:
                 res.errors.append(f"ORD cannot evaluate helpers.{name}: {exc}")
                 continue
@@ -118,6 +123,9 @@ def run(prog: Program, res: Result) -> None:
         for (f2, node, msg) in ev.mutated_params:
             res.add(Finding(P, "C16.R2-argument-not-mutated", construct_key(prog, node, f2.module),
                             f"{f2.module.relpath}:{node.lineno}", f"helpers.{f2.name}: {msg}"))
+    except OrdDeviation as exc:
+        res.ob(False)
+        res.add(Finding(P, "C16.R1-helper-spec", "helpers.sort_and_trim::MIN", fi.loc(), f"helpers.sort_and_trim does not rank by cost: {exc}"))
     except OrdUnknown as exc:
         res.errors.append(f"ORD cannot evaluate helpers.sort_and_trim: {exc}")
     # special_agents with absent counts
@@ -126,6 +134,8 @@ def run(prog: Program, res: Result) -> None:
                           ({"n_best": "None", "n_worst": "None"}, "both absent")):
         try:
             got, _ = evaluate(prog, "special_agents", MIN, absent)
+        except OrdDeviation:
+            continue      # already reported for the fully specified call
         except OrdUnknown as exc:
             res.errors.append(f"ORD cannot evaluate helpers.special_agents ({label}): {exc}")
             continue
